@@ -92,8 +92,10 @@ def run(ctx):
                     if not kinds or alt == base: continue
                     for syn in CANON:
                         if c01.skip_region(syn, feats, collections.Counter()): continue
-                        if syn == "uper" and kinds & {"int-pad", "bit-noise", "default-explicit"}:
-                            stats["skipped_uper_F16_F17_F18"] += 1; continue
+                        # F17 (bit-noise) and F18 (int-pad) are repaired: those kinds are checked under uper as well;
+                        # only the kind of a finding that is still `known` stays out
+                        if syn == "uper" and "default-explicit" in kinds and ctx.match_finding(lambda f: f["id"] == "F16"):
+                            stats["skipped_uper_F16"] += 1; continue
                         if syn == "oer" and "setof-perm" in kinds: stats["skipped_oer_F55"] += 1; continue
                         if syn == "cxer" and "default-explicit" in kinds: stats["skipped_cxer_F56"] += 1; continue
                         lines.append(f"@{n} enc {syn} {base}"); meta.append((n, syn, "base", frozenset(kinds)))
